@@ -44,7 +44,7 @@ for p in props:
             "level_claimed": {"category": "exploration",
                               "text": "generated-input search (property-based testing / fuzzing) against an explicit oracle; a green run means no counterexample among the generated cases counted in the evidence file, not absence of violations",
                               "design_ref": "DESIGN.md section " + ref},
-            "level_note": "trusted: proto codec, bank module, the harness's key parsers and reference model; assumes baseapp tx atomicity, 20-byte signers, stake-only pricing (DESIGN.md section 4)",
+            "level_note": "trusted: proto codec, bank module, the harness's key parsers and reference model; assumes baseapp tx atomicity, 20-byte signers, amounts within int64 in histories, the token registry and exchange rates of DESIGN.md section 4.7 / 4.10",
             "technique": tech,
         })
     else:
